@@ -252,8 +252,19 @@ class Folder:
             except TypeError:
                 pass
             raise Unfoldable(norm(n))
-        if isinstance(n, ast.Call) and isinstance(n.func, ast.Name) and n.func.id == 'range' and not n.keywords and 1 <= len(n.args) <= 3:
-            args = [self.fold(a, local_enum) for a in n.args]
+        if isinstance(n, ast.Call) and isinstance(n.func, ast.Name) and n.func.id in ('set', 'frozenset') and len(n.args) == 1 and not n.keywords and \
+                n.func.id not in self.env and n.func.id not in self.funcs:
+            v = self.fold(n.args[0], local_enum)
+            if isinstance(v, str):
+                v = list(v)
+            if isinstance(v, (list, tuple, frozenset)) and all(type(x) in (int, str) for x in v):
+                return frozenset(v)
+            raise Unfoldable(norm(n))
+        if isinstance(n, ast.Call) and isinstance(n.func, ast.Name) and n.func.id == 'range' and not n.keywords and \
+                (1 <= len(n.args) <= 3 or any(isinstance(a, ast.Starred) for a in n.args)):
+            args = self._elts(n.args, local_enum)
+            if not 1 <= len(args) <= 3:
+                raise Unfoldable(norm(n))
             if all(isinstance(a, int) and not isinstance(a, bool) for a in args) and not (len(args) == 3 and args[2] == 0):
                 r = range(*args)
                 if len(r) <= 4096:
